@@ -49,6 +49,14 @@ def menu(tier):
                              r'(\( assert \( or [abc]+ [abc]+ \) \) ?){1,2}$'),
                             strat, j, [],
                             budget=b if j > 1 else 0))
+    # only a joint change is acceptable: push and pop can only go together,
+    # which is a *global* proposal (binary reduction over the top level)
+    joint = '(declare-const a Bool)\n(assert a)\n(push 1)\n(pop 1)\n'
+    for strat in ('hierarchical', 'hybrid'):
+        scn.append(S.mk(
+            f'joint-removal/{strat}/j1', joint,
+            ('re', r'^\( declare-const a Bool \) \( assert a \)'
+             r'( \( push 1 \) \( pop 1 \))?$'), strat, 1, [], budget=0))
     for inp, ms in (('micro', 'core'), ('micro2', 'core'),
                     ('micro2', 'erase'), ('micro', 'boolean')):
         for strat in ('hierarchical', 'hybrid'):
